@@ -92,6 +92,8 @@ func checkC09(c *Ctx) {
 			c.c09Confirm(b)
 		}
 	}
+	// R09.2 also for Restore: every restored entry owns its key (a decode target re-used across records shares one key buffer)
+	c.borrow("C13", func() { checkC13(c) }, func(o *coreObl) (string, bool) { return "R09.2", o.Rule == "R13.1" })
 	// R09.5: label invalidation remembers processed keys by the key itself (a digest would let a colliding key's entry survive)
 	c.borrowKinds("C15", func() { c.c15Protocol() }, "R09.5", "InvalidationIndex.invalidateByLabels", []string{"R15.3"}, "dedup-key")
 	// R09.4: the per-key build locks of the Failover frontends are keyed by the full key, not by a hash of it
@@ -293,7 +295,7 @@ func (c *Ctx) c09Retention() {
 // c09Confirm: R09.3 on Read and Delete of a sharded backend.
 func (c *Ctx) c09Confirm(b BK) {
 	r := c.R
-	for _, op := range []string{"Read", "Delete"} {
+	for _, op := range []string{"Read", "Delete", "Load"} {
 		name := b.Name + "." + op
 		run := c.bk(b, name, true)
 		if run.err != nil {
@@ -317,6 +319,12 @@ func (c *Ctx) c09Confirm(b BK) {
 			switch op {
 			case "Read":
 				uses = len(p.Ret) == 2 && !isConstNamed(p.Ret[1], "ErrNotFound")
+			case "Load":
+				if len(p.Ret) == 2 {
+					if t, known := p.Truth(p.Ret[1]); !known || t {
+						uses = true
+					}
+				}
 			case "Delete":
 				for _, ev := range p.Events {
 					if ev.Kind == pw.EvMapDelete && isShardData(ev) {
